@@ -252,7 +252,7 @@ pub fn run(run: &mut Run) {
     });
     run.exhaustive = true;
     run.exhaustive_parts.push("all (a,b) in i8 x i8 and u8 x u8".into());
-    let n = run.tier.pick(20_000, 300_000);
+    let n = run.tier.pick(100_000, 3_000_000);
     let i64s = prop_oneof![3 => any::<i64>(), 2 => -3i64..=3, 1 => prop::sample::select(vec![i64::MIN, i64::MAX, i64::MIN + 1, i64::MAX - 1])];
     let s = (i64s.clone(), i64s).prop_map(|(a, b)| IntPair { ty: "i64".into(), a: a as i128, b: b as i128 });
     run.prop("int", n, s, int_case);
